@@ -96,9 +96,9 @@ class Ctx:
         self.tag_registry: dict = {}
         self.notes: dict = {}
         for e, taken in fixed.values():
-            c = e if taken else z3.Not(e)
-            self.pc.append(c)
-            solver.add(c)
+            self.pc.append(e if taken else z3.Not(e))
+        if self.pc:
+            solver.add(*self.pc)
 
     # -- solver plumbing ---------------------------------------------------------------
     def check(self, *extra) -> str:
@@ -542,15 +542,18 @@ def isclose(a, b, *, rel_tol=1e-09, abs_tol=0.0):
     if not isinstance(a, SymReal) and not isinstance(b, SymReal):
         return _math.isclose(a, b, rel_tol=rel_tol, abs_tol=abs_tol)
     a, b = _r(a), _r(b)
+    at = _r(abs_tol)
+    d = a - b
+    if not isinstance(rel_tol, SymReal) and rel_tol == 0:
+        return SymBool(z3.And(d <= at, -d <= at))
 
     def ab(x):
         return z3.If(x >= 0, x, -x)
 
     mx = z3.If(ab(a) >= ab(b), ab(a), ab(b))
     tol_r = _r(rel_tol) * mx
-    at = _r(abs_tol)
     tol = z3.If(tol_r >= at, tol_r, at)
-    return SymBool(ab(a - b) <= tol)
+    return SymBool(ab(d) <= tol)
 
 
 class MathShim(types.ModuleType):
